@@ -115,7 +115,10 @@ def gen_programs(ctx, n):
 # --------------------------------------------------------------------------- correspondence
 
 def observations(ctx, block):
-    """[(model command line, canonical real value)] for one real block."""
+    """[(model command line, [(layer, canonical real value)])] for one real block: one
+    (geomobs FLAT WB ((f l)...) ((f b)...)) line per distinct geometry; its answer is
+    `ranges | varlists ; ... | trialnos ; ...` (same model functions as the commands
+    ranges / varlists / trialnos, the flat record parsed once)."""
     w = flat.flat_wire(block)
     T = block.trials_per_sample()
     obs = []
@@ -126,17 +129,34 @@ def observations(ctx, block):
             if gw in seen:
                 continue
             seen.add(gw)
-            obs.append(("ranges", "(ranges %s %s)" % (w, gw), canon(layout_real.real_ranges(block, g))))
+            real = [("ranges", canon(layout_real.real_ranges(block, g)))]
+            fls, fbs = [], []
             for f in block.act_design:
                 fi = block.design.index(f)
                 for li in sorted(set([0, len(f.levels) - 1])):
-                    obs.append(("varlists", "(varlists %s %d %d %s)" % (w, fi, li, gw),
-                                canon(layout_real.real_varlists(block, f, f.levels[li], g))))
+                    fls.append("(%d %d)" % (fi, li))
+                    real.append(("varlists", canon(layout_real.real_varlists(block, f, f.levels[li], g))))
+            for f in block.act_design:
+                fi = block.design.index(f)
                 for b in sorted(set([0, 1, 2, -1, -2, T - 1, T, -T, -T - 1] +
                                     ([g.num_trials - 1, -g.num_trials] if g is not None else []))):
-                    obs.append(("trialnos", "(trialnos %s %d %d %s)" % (w, fi, b, gw),
-                                canon(layout_real.real_trialnos(block, f, b, g))))
+                    fbs.append("(%d %d)" % (fi, b))
+                    real.append(("trialnos", canon(layout_real.real_trialnos(block, f, b, g))))
+            obs.append(("(geomobs %s %s (%s) (%s))" % (w, gw, " ".join(fls), " ".join(fbs)), real))
     return obs
+
+
+def split_model(line):
+    """answer of geomobs -> list of item strings in the order of the real observations"""
+    if line.startswith("!"):
+        return None
+    parts = line.split(" | ")
+    if len(parts) != 3:
+        return None
+    out = [parts[0]]
+    for p in parts[1:]:
+        out += [x for x in p.split(" ; ")] if p != "" else []
+    return out
 
 
 # --------------------------------------------------------------------------- search: documented windows
@@ -320,7 +340,7 @@ def search_e2e(program):
 # --------------------------------------------------------------------------- run / replay
 
 def run(ctx, res):
-    n = 120 if ctx.quick else 1000
+    n = 120 if ctx.quick else 800
     res.rule = ("%d generated programs (Repeat / Merge / Nest incl. transition and window factors under sustain, MultiCrossBlock with the "
                 "three alignments, plain CrossBlock) + corpus: every distinct within_block geometry of the block's constraints and None; "
                 "windows of every block-/combinator-level constraint vs the documented scope; %s small Repeat programs exhausted with "
@@ -351,13 +371,12 @@ def run(ctx, res):
             found.append(("harness", "harness error: %s %s" % (type(e).__name__, str(e)[:200]), {}, p, False))
             continue
         multi = False
-        for kind, line, real in obs:
+        for line, real in obs:
             lines.append(line)
-            expect.append((kind, real, p))
-            if kind == "ranges":
-                stats["geometries"] += 1
-                if real.count("(") > 2:
-                    multi = True
+            expect.append((real, p))
+            stats["geometries"] += 1
+            if real[0][1].count("(") > 2:
+                multi = True
         stats["multi-window"] += multi
         res.count(key, nontrivial=multi)
         w = search_windows(p, block)
@@ -372,15 +391,21 @@ def run(ctx, res):
             found.append((w[0], w[1], w[2], p, True))
         if multi:
             res.sample({"shape": tag, "trials": block.trials_per_sample(),
-                        "ranges": [real for kind, _, real in obs if kind == "ranges"][:4]})
+                        "ranges": [real[0][1] for _, real in obs][:4]})
     outs = ctx.model(lines) if lines else []
     corr_bad = []
-    for (kind, real, p), mod in zip(expect, outs):
-        ok = (real == mod)
-        res.layer("L2-" + kind, ok)
-        res.count(None, nontrivial=False)
-        if not ok:
-            corr_bad.append((kind, p, real, mod))
+    for (real, p), line in zip(expect, outs):
+        items = split_model(line)
+        if items is None or len(items) != len(real):
+            res.layer("L2-ranges", False)
+            corr_bad.append(("ranges", p, real[0][1], line[:300]))
+            continue
+        for (kind, rv), mv in zip(real, items):
+            ok = (rv == mv)
+            res.layer("L2-" + kind, ok)
+            res.count(None, nontrivial=False)
+            if not ok:
+                corr_bad.append((kind, p, rv, mv))
     for p in e2e_programs(ctx.quick):
         stats["e2e-programs"] += 1
         T = p["constraints"][1]["trials"]
